@@ -89,12 +89,16 @@ def _get_active_realizations(
 ) -> tuple[NDArray[np.bool_] | None, NDArray[np.bool_] | None]:
     # Functions without filtered weights use the configured realization weights:
     active_realizations = np.abs(config.realizations.weights) > 0
-    if (
-        objective_weights is None
-        and constraint_weights is None
-        and np.all(active_realizations)
-    ):
-        return None, None
+    if objective_weights is None and constraint_weights is None:
+        if np.all(active_realizations):
+            return None, None
+        filter_indices = [config.objectives.realization_filters]
+        if config.nonlinear_constraints is not None:
+            filter_indices.append(config.nonlinear_constraints.realization_filters)
+        if any(item is not None and np.any(item >= 0) for item in filter_indices):
+            # Filters determine the weights after the evaluation, and they may
+            # rank or select any realization, hence all must be evaluated:
+            return None, None
     active_objectives = (
         np.broadcast_to(
             active_realizations,
